@@ -790,6 +790,21 @@ func (c *evalCtx) call(n *Node) SV {
 	case "ite":
 		cc, a, b := c.eval(n.Args[0]), c.eval(n.Args[1]), c.eval(n.Args[2])
 		return SV{T: ite(cc.T, a.T, b.T), Ty: a.Ty, Opt: a.Opt, Sort: a.Sort}
+	case "prev":
+		// prev(e) in a loop step clause: e at the loop header of the current iteration
+		pe, ok := c.env.(interface{ Prev() (SpecEnv, bool) })
+		if !ok || len(n.Args) != 1 {
+			panic("prev(expr) is only meaningful in 'loop k step' clauses")
+		}
+		env2, has := pe.Prev()
+		if !has {
+			panic("prev(expr) outside a loop step clause")
+		}
+		saved := c.env
+		c.env = env2
+		v := c.eval(n.Args[0])
+		c.env = saved
+		return v
 	case "$at":
 		// $at("F", e): e evaluated in the state in which the last by-contract call of F on this path was made
 		ae, ok := c.env.(interface {
